@@ -34,6 +34,13 @@ def _run(pid, repo):
         viol, known = rep.evaluate()
         return ("violation" if viol else "silent"), [f"{o.rule}:{o.key}" for o in viol][:3]
     except AnalysisError as e:
+        # like check.py: a definite violation found before a later rule could not run stands
+        try:
+            viol, known = rep.evaluate(floors_enforced=False)
+        except Exception:
+            viol = []
+        if viol:
+            return "violation", [f"{o.rule}:{o.key}" for o in viol][:3]
         return "analysis-error", [str(e)[:120]]
 
 
